@@ -5,7 +5,7 @@ import r_skip
 
 EXPLANATION = (
     "A-WHO / A-DOM over stylua_lib: (gating) sort_requires::sort_requires is called only from format_ast, on the true "
-    "edge of `config.sort_requires.enabled`; no other call in the library resolves to a sort/reverse/swap/rotate/"
+    "edge of `config.sort_requires.enabled`, and with the option on every path to the formatter has sorted (no other condition switches it off); no other call in the library resolves to a sort/reverse/swap/rotate/"
     "dedup/retain on a collection whose element type mentions Stmt (with the option off, statement order never "
     "changes); (stability) the sort callee is a stable slice sort; (trivia) the group's leading trivia is taken from "
     "index 0 before the sort and restored to index 0 after it; (R-GROUP) a new group is started exactly on: no previous part, previous part not a require group, different kind, or line distance > 1; (R-SORTGUARD) the sort is reached only if every member is Normal; (R-SKIP d) the Context used to ask should_format_node "
@@ -42,6 +42,40 @@ def rule_sort(ctx, prop):
                 rep.violation("stylua_lib::format_ast sort-not-gated",
                               "sort_requires is not dominated by the true edge of config.sort_requires.enabled: "
                               "statements can be reordered with the option off", f.loc(t["sp"]), cfg)
+            # path form: with the option on, *every* path of format_ast that reaches the formatter has sorted first; with
+            # the option off none has (no other condition may switch the sorting off, e.g. a range)
+            from paths import Enumerator, TooManyPaths
+            try:
+                pres = Enumerator(f, summaries=False, max_paths=5000).run()
+            except TooManyPaths:
+                pres = []
+                rep.anchor(False, "format_ast: too many paths", cfg)
+            bad_on, bad_off, npaths = set(), set(), 0
+            for st in pres:
+                en = [v for k, v in st.disc.items() if k.endswith("sort_requires.enabled")]
+                if not en:
+                    continue
+                if not any(c.endswith("CodeFormatter::format") for _, c, _ in st.calls):
+                    continue
+                npaths += 1
+                sorted_ = any(c == "sort_requires::sort_requires" for _, c, _ in st.calls)
+                if en[0] == "true" and not sorted_:
+                    bad_on.add(tuple(sorted(callee(f.blocks[bb]["term"]).split("::")[-1] for bb in st.decisions) +
+                                     sorted(f"{callee(f.blocks[int(k.split(':')[1].split('.')[0])]['term']).split('::')[-1]}={v}"
+                                            for k, v in st.disc.items() if k.startswith("call:") and isinstance(v, str) and
+                                            v not in ("Ok", "Err", "Some", "None"))))
+                if en[0] == "false" and sorted_:
+                    bad_off.add(True)
+            rep.inst("stylua_lib::format_ast option on => sorted on every path; off => never", {"paths": npaths}, cfg,
+                     ok=not bad_on and not bad_off and npaths >= 2)
+            for why in sorted(bad_on)[:1]:
+                rep.violation(f"stylua_lib::format_ast sort-skipped-although-enabled decided-by={list(why)}",
+                              f"with sort_requires enabled a path of format_ast reaches the formatter without calling "
+                              f"sort_requires (decided by {list(why)}): require groups stay unsorted although the option is on",
+                              f.loc(t["sp"]), cfg)
+            if bad_off:
+                rep.violation("stylua_lib::format_ast sort-not-gated", "sort_requires runs on a path where the option is off",
+                              f.loc(t["sp"]), cfg)
             # runs before formatting: dominates the CodeFormatter::format call... (order of the two calls)
             fm = [bb for bb, tt in f.calls() if callee(tt).endswith("CodeFormatter::format")]
             okb = bool(fm) and all(bb in f.reach_from(b) for bb in fm)
